@@ -193,6 +193,19 @@ func (r *Raft) VerifHeartbeat() {
 	r.sendAppendEntriesToPeers()
 }
 
+// VerifLeadAgain makes this node a candidate of the next term and then the leader of it: what
+// election() followed by a won vote does. Requests of an earlier leadership that are still in
+// flight stay in flight.
+func (r *Raft) VerifLeadAgain() {
+	r.mu.Lock()
+	defer r.mu.Unlock()
+	if r.state == Shutdown {
+		return
+	}
+	r.becomeCandidate()
+	r.becomeLeader()
+}
+
 // VerifLog returns the log used by this node.
 func (r *Raft) VerifLog() Log {
 	return r.log
